@@ -178,7 +178,8 @@ def make_fake_datetime(fake):
     class FakeDateTime(_dt.datetime):
         @classmethod
         def today(cls):
-            return fake.now
+            # local wall-clock time of the process: fake.now is UTC, fake.tz_offset the zone the process runs in
+            return fake.now + getattr(fake, 'tz_offset', _dt.timedelta(0))
 
         @classmethod
         def utcnow(cls):
@@ -186,5 +187,7 @@ def make_fake_datetime(fake):
 
         @classmethod
         def now(cls, tz=None):
-            return fake.now
+            if tz is not None:
+                return pytz.utc.localize(fake.now).astimezone(tz)
+            return fake.now + getattr(fake, 'tz_offset', _dt.timedelta(0))
     return FakeDateTime
